@@ -154,17 +154,25 @@ def run(ctx):
         for ea, eb in zip(a, b):
             ctx.formula('AGREE', 'tile appended == data[y_start:y_stop, x_start:x_stop] of the reference walk', sa,
                         ea.data['args'][1], eb.data['args'][1], node=ea.node)
-    def filters(II):
-        return [e for e in II.events if e.kind == 'call' and e.data['name'] == 'filter']
-    fa, fb = filters(I), filters(IR)
+    def trims(II):
+        """name stores whose value is a filtered list [A for A in <tiles> if <predicate on A>] (filter(...) or comprehension)"""
+        out = []
+        for e in II.events:
+            if e.kind == 'store' and e.data.get('target') == 'name':
+                va = e.data['value'].single_atom()
+                if va is not None and va.kind == 'comp' and va.args[0] == 'list' and len(va.args[2]) == 1:
+                    g = va.args[2][0].single_atom()
+                    if g is not None and len(g.args) >= 2 and va.args[1].single_atom() is not None \
+                            and va.args[1].single_atom().kind == 'elem':
+                        out.append((e, T.mk_and(list(g.args[1:]))))
+        return out
+    fa, fb = trims(I), trims(IR)
     if len(fa) != len(fb):
-        ctx.ob('AGREE', 'trimming filters as in the reference', sa, False, {'code': [e.text() for e in fa]}, node=sa.node,
-               construct='filter(...) calls')
+        ctx.ob('AGREE', 'trimming filters as in the reference', sa, False, {'code': [e.text() for e, _ in fa]}, node=sa.node,
+               construct='trimming filters')
     else:
-        for ea, eb in zip(fa, fb):
-            va = ctx.apply(I, sa, ea.data['args'][0], [sym('A')])
-            vb = ctx.apply(IR, sa, eb.data['args'][0], [sym('A')])
-            ctx.formula('AGREE', 'trimming keeps exactly the tiles of full size along the trimmed axis', sa, va, vb, node=ea.node,
+        for (ea, pa), (eb, pb) in zip(fa, fb):
+            ctx.formula('AGREE', 'trimming keeps exactly the tiles of full size along the trimmed axis', sa, pa, pb, node=ea.node,
                         construct=ea.text()[:80] + ' [predicate]')
             ctx.formula('AGREE', 'trimming is applied iff its flag is set', sa, ea.cond(), eb.cond(), node=ea.node,
                         construct=ea.text()[:80] + ' [guard]')
